@@ -111,6 +111,7 @@ type Machine struct {
 	envVars      []*Term
 	vinfo        map[int]*varInfo
 	allocLimit   int
+	decPos       []string
 	yieldCache   map[*ssa.FieldAddr]bool
 	DomDecided   int
 	intrCache    map[*ssa.Function]Intrinsic
